@@ -122,8 +122,23 @@ def ctxSame (p orig mutated : J) : Bool :=
 def lostProofCtx (orig mutated : J) : Bool :=
   (ctxList orig).any fun c => isProofOnly c && !((ctxList mutated).map J.render).contains (J.render c)
 
+/-- members of the credential that the Go value knows by name (`rawCredential`) -/
+def knownMembers : List String :=
+  ["@context", "id", "type", "credentialSubject", "issuanceDate", "expirationDate", "proof", "credentialStatus",
+   "issuer", "credentialSchema", "evidence", "termsOfUse", "refreshService", "jwt", "_sd_alg"]
+
+def lowerAscii (s : String) : String := String.ofList (s.toList.map Char.toLower)
+
+/-- two top-level members that match the same known member up to case ("Issuer" next to "issuer"): `encoding/json` would
+    decode the last one INTO the known member; the decoder refuses such a document as ambiguous (repair of C07-F3). A lone
+    variant is still decoded into the known member (an existing test relies on it: open finding C16-F2). -/
+def hasCaseVariant (j : J) : Bool :=
+  match j with
+  | .obj kvs => knownMembers.any fun n => (kvs.filter fun (k, _) => lowerAscii k == lowerAscii n).length > 1
+  | _ => false
+
 /-- (default validation, strict validation) outcome of verifying `mutated`, a document derived from the signed `orig` -/
-def expected (orig mutated : J) : String × String :=
+def expectedClaims (orig mutated : J) : String × String :=
   match member mutated "proof" with
   | none => ("noproof", "noproof")
   | some p =>
@@ -133,5 +148,10 @@ def expected (orig mutated : J) : String × String :=
     let ok := sameProof && sameCtx && sameSet (docClaims d orig) (docClaims d mutated)
     if !ok then ("rej", "rej")
     else ("acc", if hasUndefined d 16 mutated || lostProofCtx orig mutated then "rej" else "acc")
+
+/-- the verdict of the code: a document with a case variant of a known member is refused by the decoder before anything
+    is verified; otherwise the claims-level verdict -/
+def expected (orig mutated : J) : String × String :=
+  if hasCaseVariant mutated then ("rej", "rej") else expectedClaims orig mutated
 
 end Ldp
